@@ -191,6 +191,13 @@ def failing(b, kind):
         return b.read(var("Z", "I")), 4
     # the failing expression is an argument of a call that is itself an argument of another call (the subprograms
     # FA%, GA% and PA are added by call_subs): the half-collected argument lists must be forgotten
+    # a call (of an ordinary / a STATIC function) has already RETURNED when the statement fails: what the call
+    # pushed and popped must leave the statement's own bookkeeping as it was
+    if kind in ("aftercall", "afterstatic"):
+        c1 = fcall("FA" if kind == "aftercall" else "FS", "I", [lit("I", 6)], 0)
+        st = b.let(var("Z", "I"), bin_("/", c1, q))
+        c1["sid"] = st["id"]
+        return st, 11
     if kind in ("argcall", "argnest", "arg2", "idxcall"):
         div = bin_("/", lit("I", 6), q)
         if kind == "argcall":
@@ -218,13 +225,14 @@ def failing(b, kind):
 def call_subs(b):
     x = var("X", "I")
     return [fun("FA", "I", [("X", "I")], [b.let(var("FA", "I"), x)]), fun("GA", "I", [("X", "I")], [b.let(var("GA", "I"), bin_("+", x, lit("I", 1)))]),
+            fun("FS", "I", [("X", "I")], [b.let(var("FS", "I"), x)], static=True),
             sub("PA", [("X", "I"), ("Y", "I")], [b.print(lit("$", "pa"), x, var("Y", "I"))])]
 
 
-CALLKINDS = ("argcall", "argnest", "arg2", "idxcall")
+CALLKINDS = ("argcall", "argnest", "arg2", "idxcall", "aftercall", "afterstatic")
 
 
-FKINDS = ["div", "ovf", "castovf", "subscript", "print", "argcall", "argnest", "arg2", "idxcall"]
+FKINDS = ["div", "ovf", "castovf", "subscript", "print", "argcall", "argnest", "arg2", "idxcall", "aftercall", "afterstatic"]
 HOSTS = ["main", "if", "ifthen", "ifelse", "elseif", "select", "selectelse", "for+", "for-", "while", "dotopwhile", "dobotuntil", "sub"]
 
 
@@ -325,7 +333,7 @@ def fam_pending(tier, rng):
     """a statement fails, under a handler, inside a FUNCTION that was called while the caller had an operand
     pending: after RESUME NEXT / RESUME the caller must still find ITS operand"""
     out = []
-    for kind in ("div", "ovf", "subscript", "argnest"):
+    for kind in ("div", "ovf", "subscript", "argnest", "aftercall", "afterstatic"):
         for mode in ("resumenext", "onerrornext", "resume"):
             for depth, static in ((1, False), (2, False), (1, True), (2, True)):
                 b = B()
